@@ -295,13 +295,13 @@ class CFG:
                     continue
                 if edge_ok is not None and not edge_ok(n, m, lab):
                     continue
-                if m in prev:
-                    continue
                 if m == dst:
                     path = [m, n]
                     while prev[path[-1]] is not None:
                         path.append(prev[path[-1]])
                     return path[::-1]
+                if m in prev:
+                    continue
                 if avoid(self.nodes[m]):
                     continue
                 prev[m] = n
